@@ -7,7 +7,7 @@ use crate::visitor::{
     ident_provider::{IdentKind, IdentProvider},
 };
 use swc::atoms::JsWord;
-use swc_common::{util::take::Take, SyntaxContext, DUMMY_SP};
+use swc_common::{util::take::Take, Spanned, SyntaxContext, DUMMY_SP};
 use swc_ecma_ast::*;
 use swc_ecma_visit::{Visit, VisitMut, VisitMutWith};
 
@@ -277,6 +277,9 @@ impl OptChainTransform {
         csi_methods: &CsiMethods,
         ident_provider: &mut dyn IdentProvider,
     ) -> TransformResult<Expr> {
+        // the injected guard stands where the optional chain stood: it gets the chain's position so
+        // that its tokens are mapped to the chain's line and not to whatever was printed before it
+        let span = opt_chain_expr.span();
         let visitor = &mut OptChainVisitor::default(ident_provider, csi_methods);
         opt_chain_expr.visit_mut_with(visitor);
 
@@ -314,9 +317,9 @@ impl OptChainTransform {
         visitor.assignments.push(Expr::Cond(cond));
 
         let expr = Expr::Paren(ParenExpr {
-            span: DUMMY_SP,
+            span,
             expr: Box::new(Expr::Seq(SeqExpr {
-                span: DUMMY_SP,
+                span,
                 exprs: visitor
                     .assignments
                     .iter_mut()
